@@ -47,12 +47,13 @@ Dec(v) == IF v >= 900 THEN 899 - v ELSE v      \* cfg files cannot hold negative
 \* (flag set and width are part of the initial state only to spread TLC's work: all successors of one state are computed by one worker)
 Init == st \in {[fn |-> "init", f |-> fn, cv |-> cv, fi |-> fi, w |-> w] : fn \in Fns, cv \in Convs, fi \in FlagSets, w \in {Dec(v) : v \in Widths}}
 
-(* shapes: 1 = <dir>   2 = "a" <dir> "n"   3 = "%%" <dir>   4 = <dir> " %d"   5 = "%%" <text of dir without its %>   6 = "a%1$" <rest of dir>   7 = "a%[" <dir>   8 = "%[]" <dir>   9 = "%[^]" <dir> "]" *)
+(* shapes: 1 = <dir>   2 = "a" <dir> "n"   3 = "%%" <dir>   4 = <dir> " %d"   5 = "%%" <text of dir without its %>   6 = "a%1$" <rest of dir>   7 = "a%[" <dir>   8 = "%[]" <dir>   9 = "%[^]" <dir> "]"   10 = "%d|" <dir> *)
 Build(shape, d) == CASE shape = 1 -> d [] shape = 2 -> <<97>> \o d \o <<110>> [] shape = 3 -> <<37, 37>> \o d [] shape = 4 -> d \o <<32, 37, 100>>
                      [] shape = 5 -> <<37, 37>> \o Tail(d)         \* an escaped percent followed by the directive's text: all literals
                      [] shape = 6 -> <<97, 37, 49, 36>> \o Tail(d)  \* "a%1$<flags><width>...": the numbered-argument spelling of the directive
                      \* printf has no scan sets: "%[" is an invalid directive which libc prints, going on with what follows (the scanf reading of
                      \* the same text - a set that swallows the directive - does not apply to the printf family)
+                     [] shape = 10 -> <<37, 100, 124>> \o d           \* "%d|" <dir>: a directive behind another one (nothing of the first may carry over)
                      [] shape = 7 -> <<97, 37, 91>> \o d [] shape = 8 -> <<37, 91, 93>> \o d [] shape = 9 -> <<37, 91, 94, 93>> \o d \o <<93>>
 Next ==
   /\ st.fn = "init"
@@ -63,8 +64,8 @@ Next ==
            d  == DirSeq(fi, w, p, ln, cv)
        IN \E sw \in StarArgs(w, IF p = -2 THEN -2 ELSE -1), sp \in (IF p = -2 THEN {<<<<1>>, <<3, 0, 0, 0>>>>, <<<<1>>, <<65535, 65535, 65535, 65535>>>>} ELSE {<<<<>>, <<>>>>}),
              va \in ValArgs(ln, cv) :
-            LET at == IF shape = 5 THEN <<>> ELSE sw[1] \o sp[1] \o va[1] \o (IF shape = 4 THEN <<1>> ELSE <<>>)
-                av == IF shape = 5 THEN <<>> ELSE sw[2] \o sp[2] \o va[2] \o (IF shape = 4 THEN <<42, 0, 0, 0>> ELSE <<>>)
+            LET at == IF shape = 5 THEN <<>> ELSE (IF shape = 10 THEN <<1>> ELSE <<>>) \o sw[1] \o sp[1] \o va[1] \o (IF shape = 4 THEN <<1>> ELSE <<>>)
+                av == IF shape = 5 THEN <<>> ELSE (IF shape = 10 THEN <<42, 0, 0, 0>> ELSE <<>>) \o sw[2] \o sp[2] \o va[2] \o (IF shape = 4 THEN <<42, 0, 0, 0>> ELSE <<>>)
                 fmt == Build(shape, d)
                 x == Render(Parse(fmt), ArgsOf(at, av), loc, {<<>>})
                 tl == IF x.ok /\ x.texts # {} THEN Len(CHOOSE t \in x.texts : TRUE) ELSE 12
@@ -74,6 +75,7 @@ Next ==
                /\ (cv = 37 => (fi = 0 /\ w = -1 /\ p = -1))             \* "%%" is the complete specification
                /\ (shape = 5 => (w # -2 /\ p # -2))
                /\ (shape \in {7, 8, 9} => cv = 110)
+               /\ (shape = 10 => cv # 110)
                /\ (shape = 6 => (w # -2 /\ p # -2 /\ cv # 37))       \* (a numbered directive takes all its arguments by number: no plain '*')
                /\ st' = [fn |-> st.f, fmt |-> fmt, at |-> at, av |-> av, loc |-> loc, dmax |-> IF tl + rel = 0 THEN 1 ELSE tl + rel, tlen |-> tl,
                          shape |-> shape, fi |-> fi, w |-> w, p |-> p, ln |-> ln, cv |-> cv]
@@ -104,7 +106,7 @@ Spec == Init /\ [][Next]_st
 (* ---- grammar-level properties of the contract, checked on every enumerated call ---- *)
 DirOf(s) == LET P == Parse(s.fmt) IN
             IF s.shape \in {7, 8, 9} THEN CHOOSE i \in 1..Len(P) : P[i].k = "dir" /\ \A j \in (i + 1)..Len(P) : P[j].k # "dir"      \* behind the invalid "%["
-            ELSE CHOOSE i \in 1..Len(P) : P[i].k = "dir" /\ (s.shape # 3 \/ i > 1)
+            ELSE CHOOSE i \in 1..Len(P) : P[i].k = "dir" /\ (s.shape \notin {3, 10} \/ i > 1)
 ParserRecovers ==
   (st.fn \notin {"init", "scan"} /\ st.shape # 5) =>
     LET P == Parse(st.fmt)
